@@ -233,7 +233,7 @@ class Evaluator(object):
         cache = self.__dict__.setdefault('_log_only', {})
         if fnpath not in cache:
             f = self.fns.get(fnpath) if isinstance(fnpath, str) else None
-            cache[fnpath] = H.log_only_locals(f['hir'], self.fns, self.inline_filter) if f is not None and 'hir' in f else set()
+            cache[fnpath] = H.log_only_locals(f['hir'], self.fns, getattr(self, 'new_helper', None) or self.inline_filter) if f is not None and 'hir' in f else set()
         return cache[fnpath]
 
     def child(self):
@@ -444,7 +444,7 @@ class Evaluator(object):
                     val = None
                 self.bind_pat(s['pat'], val, env)
             elif sk in ('Semi', 'ExprStmt'):
-                if H.is_log(s['e']):
+                if H.is_log(s['e']) or H.log_stmt(s['e'], self.fns, getattr(self, 'new_helper', None) or self.inline_filter):
                     continue
                 self.eval(s['e'], env, guards, fn, chain)
                 guards = guards + self.implied_guards(s['e'], env)
